@@ -45,6 +45,9 @@ pub struct RpcLogEntry {
     pub txid: Txid,
     pub verdict: String, // send: ok|rej|res|err ; get: mem|no|err
     pub code: i32,
+    /// the thread that made the call, and whether the entry was already attributed to a trace event
+    pub tid: std::thread::ThreadId,
+    pub taken: bool,
 }
 
 #[derive(Default)]
@@ -71,6 +74,8 @@ pub struct NodeState {
     /// scripted verdicts for sendrawtransaction of a txid, consumed first
     pub scripted: HashMap<Txid, VecDeque<Verdict>>,
     pub up: bool,
+    /// the transaction RPC interface alone can be down (the node stopped answering after it served the blocks)
+    pub rpc_up: bool,
     pub faults: Faults,
     pub rpc_log: Vec<RpcLogEntry>,
     pub rpc_calls: usize,
@@ -92,6 +97,7 @@ impl NodeState {
             policy_reject: HashMap::new(),
             scripted: HashMap::new(),
             up: true,
+            rpc_up: true,
             faults: Faults::default(),
             rpc_log: Vec::new(),
             rpc_calls: 0,
@@ -178,7 +184,7 @@ impl NodeState {
     fn next_rpc_fails(&mut self) -> bool {
         let i = self.rpc_calls;
         self.rpc_calls += 1;
-        !self.up || self.faults.rpc_fail_at.contains(&i)
+        !self.up || !self.rpc_up || self.faults.rpc_fail_at.contains(&i)
     }
 
     pub fn send_raw_transaction(&mut self, tx: &Transaction) -> Verdict {
@@ -215,14 +221,14 @@ impl NodeState {
             Verdict::Code(c) => *c,
             _ => 0,
         };
-        self.rpc_log.push(RpcLogEntry { method: "send", txid, verdict: v.class().to_string(), code });
+        self.rpc_log.push(RpcLogEntry { method: "send", txid, verdict: v.class().to_string(), code, tid: std::thread::current().id(), taken: false });
         v
     }
 
     /// getrawtransaction without txindex: Some(tx) iff in the mempool. Err(()) = transport failure.
     pub fn get_raw_transaction(&mut self, txid: &Txid) -> Result<Option<Transaction>, ()> {
         if self.next_rpc_fails() {
-            self.rpc_log.push(RpcLogEntry { method: "get", txid: *txid, verdict: "err".into(), code: 0 });
+            self.rpc_log.push(RpcLogEntry { method: "get", txid: *txid, verdict: "err".into(), code: 0, tid: std::thread::current().id(), taken: false });
             return Err(());
         }
         let r = self.mempool.iter().find(|t| t.compute_txid() == *txid).cloned();
@@ -231,6 +237,8 @@ impl NodeState {
             txid: *txid,
             verdict: if r.is_some() { "mem".into() } else { "no".into() },
             code: 0,
+            tid: std::thread::current().id(),
+            taken: false,
         });
         Ok(r)
     }
@@ -321,6 +329,13 @@ impl SimTransport {
                         Ok(ok(json!({"hex": h, "txid": txid.to_string(), "hash": txid.to_string(), "size": 0,
                                      "vsize": 0, "version": 2, "locktime": 0, "vin": [], "vout": []})))
                     }
+                }
+            }
+            "getblockcount" => {
+                if !node.up || !node.rpc_up {
+                    Err(jsonrpc::Error::Transport(Box::new(Down)))
+                } else {
+                    Ok(ok(json!(node.height())))
                 }
             }
             other => Ok(rpc_err(-32601, &format!("method {other} not simulated"))),
